@@ -47,7 +47,11 @@ def gen(rng, hazards=()):
         i2c = rng.random() < 0.4
         bl = None
         if i2c:
-            L.append(f"lcd{i} = LCD(i2c_addr={0x27 - i}, cols={cols}, rows={rows})")
+            if rng.random() < 0.3:
+                L += [f"ncols{i} = {cols}", f"nrows{i} = {rows}"]  # geometry named by user variables
+                L.append(f"lcd{i} = LCD(i2c_addr={0x27 - i}, cols=ncols{i}, rows=nrows{i})")
+            else:
+                L.append(f"lcd{i} = LCD(i2c_addr={0x27 - i}, cols={cols}, rows={rows})")
         else:
             pins = [nxt() for _ in range(6)]
             extra = ""
